@@ -37,8 +37,23 @@ PAGES = [
 ]
 
 
-def prepare_db(d, backup_present, phase1_present):
-    """The database as a parent process leaves it (committed, closed)."""
+def prepare_db(d, backup_present, phase1_present, stale_wal=False):
+    """The database as a parent process leaves it (committed, closed); with
+    stale_wal the process that wrote after the backup died without closing,
+    so its committed frames are still in <db>-wal."""
+    if stale_wal:
+        pid = os.fork()
+        if pid == 0:
+            try:
+                _prepare(d, backup_present, phase1_present, False)
+            finally:
+                os._exit(0)
+        os.waitpid(pid, 0)
+        return os.path.join(d, "pages.db")
+    return _prepare(d, backup_present, phase1_present, True)
+
+
+def _prepare(d, backup_present, phase1_present, close):
     env.setup()
     db = os.path.join(d, "pages.db")
     ctx = env.new_ctx(db_path=db)
@@ -55,8 +70,10 @@ def prepare_db(d, backup_present, phase1_present):
         # content described above, the live file a later version
         ctx.backup_db()
         ctx.add_page("P one", 0, "OVERWRITTEN AFTER BACKUP")
+        ctx.add_page("Template:ta", 10, "OVERWRITTEN[{{{1|}}}]")
         ctx.db_conn.commit()
-    ctx.db_conn.close()
+    if close:
+        ctx.db_conn.close()
     return db
 
 
@@ -96,10 +113,11 @@ def work(db, order, pause=None):
 
 
 def reference(d_args):
-    backup_present, phase1_present = d_args
+    backup_present, phase1_present = d_args[0], d_args[1]
+    stale = len(d_args) > 2 and d_args[2]
     d = tempfile.mkdtemp(prefix="verif-c20-")
     try:
-        db = prepare_db(d, backup_present, phase1_present)
+        db = prepare_db(d, backup_present, phase1_present, stale)
         return work(db, list(range(len(PAGES))))
     finally:
         shutil.rmtree(d, ignore_errors=True)
@@ -308,7 +326,8 @@ def run_stress(db, n, offsets, orders):
 
 def judge(res, ref, before, after, variant, mode):
     base = {"mode": mode, "backup_present": variant[0],
-            "phase1_present": variant[1]}
+            "phase1_present": variant[1],
+            "stale_wal": len(variant) > 2 and variant[2]}
     out = []
     for i, r in enumerate(res):
         if r[0] == "exc":
@@ -419,16 +438,19 @@ def run(run):
         shutil.rmtree(d, ignore_errors=True)
     run.extra["gates_per_worker_start_up"] = total
     jobs = []
-    variants = [(False, False), (False, True), (True, False), (True, True)]
+    variants = [(False, False), (False, True), (True, False), (True, True),
+                (True, False, True), (True, True, True)]
     pre = preemption_schedules(total)
     for v in variants:
         sel = pre if not quick else pre[::max(1, len(pre) // 10)]
-        if v[0]:
-            sel = sel[:: max(1, len(sel) // 4)]   # known finding: few
+        if v[0] and quick:
+            # with a backup file the restore in create_db is the critical
+            # section: every preemption point of the first 30 gates
+            sel = pre[:60] if len(v) > 2 else pre[:60:3]
         for s in sel + (hold_schedules(total) if not v[0] else []):
             jobs.append(("A", v, 2, s, rnd.randint(0, 10 ** 6)))
         nrand = (6 if quick else 150)
-        for _ in range(nrand if not v[0] else 2):
+        for _ in range(nrand):
             n = 2 if quick or rnd.random() < 0.5 else 3
             s = [rnd.randint(0, n - 1) for _ in range(rnd.randint(5, 2 * total))]
             jobs.append(("A", v, n, s, rnd.randint(0, 10 ** 6)))
@@ -453,6 +475,7 @@ def run(run):
                  + (["overlapping"] if r["overlap"] else []),
                  sample={"mode": mode, "workers": n, "backup_present": v[0],
                          "phase1_present": v[1],
+                         "stale_wal": len(v) > 2 and v[2],
                          "schedule_or_offsets": payload[:40],
                          "context_switches": r["switches"]})
         for sig, what in r["viols"]:
@@ -461,8 +484,10 @@ def run(run):
                                       "seed": seed})
     run.rule = (
         "A database prepared and closed by a parent (templates, Lua modules, "
-        "5 pages; variants: backup file present / absent, "
-        "Module:_sandbox_phase1 present / absent). Mode A: 2-3 workers each "
+        "5 pages; variants: backup file present / absent - and with a backup, "
+        "the write-ahead log of the superseded database left behind by a "
+        "writer that died, or not -, Module:_sandbox_phase1 present / "
+        "absent). Mode A: 2-3 workers each "
         "construct Wtp(db_path) and process the pages in a seeded order under "
         "a line tracer restricted to create_db, init_wikidata_cache, "
         "add_empty_sandbox_lua_module, add_page, backup_db_path; at every "
